@@ -537,3 +537,87 @@ func verifSSHFingerprintHex(pub crypto.PublicKey) string {
 	}
 	return verifSHA256Hex(p.Marshal())
 }
+
+// ---------------------------------------------------------------- fake STS
+
+// verifFakeSTS replaces the process-wide default HTTP transport so that
+// requests to sts.<region>.amazonaws.com are answered locally (the external
+// party of the cloud-role path).  Everything else is refused: the sandbox has
+// no network and nothing else should be dialled.
+type verifFakeSTS struct {
+	mu    sync.Mutex
+	Calls int
+}
+
+var verifSTS = &verifFakeSTS{}
+var verifSTSOnce sync.Once
+
+func (f *verifFakeSTS) RoundTrip(r *http.Request) (*http.Response, error) {
+	if !strings.HasPrefix(r.URL.Host, "sts.") || !strings.HasSuffix(r.URL.Host, ".amazonaws.com") {
+		return nil, fmt.Errorf("verif: network is not available (%s)", r.URL.Host)
+	}
+	f.mu.Lock()
+	f.Calls++
+	f.mu.Unlock()
+	// the "signature" of the presigned URL names the caller: X-Verif-Role=<account>:<role>
+	who := r.URL.Query().Get("X-Verif-Role")
+	rec := httptest.NewRecorder()
+	if who == "" {
+		rec.WriteHeader(403)
+		return rec.Result(), nil
+	}
+	parts := strings.SplitN(who, ":", 2)
+	fmt.Fprintf(rec, `<GetCallerIdentityResponse xmlns="https://sts.amazonaws.com/doc/2011-06-15/"><GetCallerIdentityResult><Arn>arn:aws:sts::%s:assumed-role/%s/session-1</Arn><UserId>AROAEXAMPLE:session-1</UserId><Account>%s</Account></GetCallerIdentityResult></GetCallerIdentityResponse>`,
+		parts[0], parts[1], parts[0])
+	return rec.Result(), nil
+}
+
+func verifInstallFakeSTS() {
+	verifSTSOnce.Do(func() { http.DefaultTransport = verifSTS })
+}
+
+var verifPresignSeq int64
+
+// verifCloudRoleReq builds the request a cloud workload would send.
+func verifCloudRoleReq(account, role, claimedArn, pemKey string) verifReq {
+	verifStateMu.Lock()
+	verifPresignSeq++
+	n := verifPresignSeq
+	verifStateMu.Unlock()
+	return verifReq{Method: "POST", Path: "/aws/requestRoleCertificate/v1",
+		RawBody: []byte(pemKey), RawCT: "application/x-pem-file",
+		Header: map[string]string{
+			"Claimed-Arn":      claimedArn,
+			"Presigned-Method": "GET",
+			"Presigned-URL": fmt.Sprintf("https://sts.us-east-1.amazonaws.com/?Action=GetCallerIdentity&Version=2011-06-15&X-Verif-Role=%s:%s&n=%d",
+				account, role, n),
+		}}
+}
+
+// verifRoleMintReq: administrator asks for an IP-restricted automation cert.
+func verifRoleMintReq(identity string, pub crypto.PublicKey, requestor, target []string, extra url.Values) verifReq {
+	der, err := x509.MarshalPKIXPublicKey(pub)
+	if err != nil {
+		panic(err)
+	}
+	f := url.Values{"identity": {identity}, "pubkey": {base64.RawURLEncoding.EncodeToString(der)}}
+	for _, r := range requestor {
+		f.Add("requestor_netblock", r)
+	}
+	for _, r := range target {
+		f.Add("target_netblock", r)
+	}
+	for k, v := range extra {
+		f[k] = v
+	}
+	return verifReq{Method: "POST", Path: "/v1/getRoleRequestingCert", Form: f}
+}
+
+func verifRoleRefreshReq(pub crypto.PublicKey) verifReq {
+	der, err := x509.MarshalPKIXPublicKey(pub)
+	if err != nil {
+		panic(err)
+	}
+	return verifReq{Method: "POST", Path: "/v1/refreshRoleRequestingCert",
+		Form: url.Values{"pubkey": {base64.RawURLEncoding.EncodeToString(der)}}}
+}
